@@ -29,6 +29,11 @@ definitions inside blocks CPython really executes (``if`` / ``else`` / ``try`` /
 compound conditions containing it, version tests), in private or public submodules of a package,
 re-exported through explicit imports, wildcard imports (source with or without ``__all__``) and
 chains of them; the packages are really imported by CPython's import system.
+
+Fourth workload ("exprs"): the defaults themselves.  The literal defaults of placed hierarchies are re-spelled by arbitrary
+expressions (hostile grammar of ``vf/gen/exprs.py`` plus templates in spellings only the 3.12 parser accepts); a prelude of
+symbolic values makes CPython really evaluate them, so "optional", "required" and "default value changed" are still read
+from the executed definitions (``inspect.signature``), never from griffe.
 """
 from __future__ import annotations
 
@@ -76,7 +81,16 @@ RULE = ("all legal signatures over parameter names {a,b} (quick) / {a,b,c} (thor
         "(none, if True, if not TYPE_CHECKING / typing.TYPE_CHECKING / t.TYPE_CHECKING, else-branch of a type-checking guard, "
         "sys.version_info tests with or without else, or/and-compounds with the guard on either side, try/except ImportError in "
         "both directions, try/finally, nested ifs; for K around the class or around the method); blocks that do not run never "
-        "define a compared name; old/new differ by signature (mostly call-breaking) and 15% also by block shape")
+        "define a compared name; old/new differ by signature (mostly call-breaking) and 15% also by block shape. "
+        "Expression-default workload (random sample per seed): placed hierarchies whose literal defaults are re-spelled per "
+        "parameter name: 0 -> E0, 1 -> E1, E0 drawn from the hostile expression grammar of vf/gen/exprs.py (depth 1..3) or from 32 "
+        "templates in spellings ast.unparse never emits (PEP 701 reused quotes, nested f-strings to depth 3, nested format "
+        "specs, `=` fields, backslash / line break in a field, implicit concatenation, star tuples, starred subscripts, walrus, "
+        "lambdas with every parameter kind, conditional expressions, comprehensions, calls with keywords and stars) with "
+        "grammar-drawn holes; E1 = a point mutation of E0 (sub-expression, operator, constant, conversion, format spec, keyword "
+        "name, star, lambda parameter kind, attribute, element) or an independent draw, always evaluating to another value; "
+        "each occurrence uses the drawn text or (30%) another spelling CPython parses to the same tree; expressions CPython "
+        "cannot evaluate under the prelude are redrawn; every load mode")
 LEVEL_TEXT = ("For every pair of the enumerated signature space the set of calls CPython binds to the old but not the new "
               "definition is computed with CPython's binder; the real find_breaking_changes must report >=1 breakage "
               "whenever that set is non-empty, must name every moved / default-changed / newly-required parameter, must "
@@ -91,7 +105,9 @@ LEVEL_TEXT = ("For every pair of the enumerated signature space the set of calls
               "through a pass-through wrapper around cli.find_breaking_changes, resp. parsed from the one-line output; exit "
               "code and number of printed lines must agree with them).")
 LEVEL_NOTE = ("trusted: inspect.Signature.bind (cross-checked against real calls for every signature x call shape); call "
-              "shapes bounded to <=3 positional and keywords from {a,b,c,zz}; defaults limited to two literal values")
+              "shapes bounded to <=3 positional and keywords from {a,b,c,zz}; defaults are two literal values in the exhaustive "
+              "pair space and arbitrary expressions over symbolic prelude values in the expression-default sample (equality of "
+              "two defaults = equality of the repr of what CPython evaluated; of the parsed trees for identity-printed values)")
 TECHNIQUE = "runtime monitoring: differential oracle (CPython Signature.bind / real calls) over an exhaustively enumerated pair space"
 REQUIRED_COUNTERS = ["pairs_with_broken_call", "identical_pairs_silent", "moved_checked", "default_changed_checked",
                      "became_required_checked", "reported_param_breakages_checked", "bind_vs_real_call_agreements",
@@ -108,7 +124,11 @@ REQUIRED_COUNTERS = ["pairs_with_broken_call", "identical_pairs_silent", "moved_
                      "paths_defined_in_conditional_block_with_broken_call", "paths_defined_under_type_checking_condition_with_broken_call",
                      "paths_defined_under_compound_type_checking_condition_with_broken_call",
                      "paths_through_wildcard_reexport_with_broken_call", "paths_conditional_and_wildcard_reexported_with_broken_call",
-                     "paths_defined_in_private_submodule_with_broken_call"]
+                     "paths_defined_in_private_submodule_with_broken_call",
+                     "cases_with_expression_defaults", "paths_with_expression_default_and_broken_call",
+                     "expression_default_default_changed_checked", "expression_default_became_required_checked",
+                     "expression_default_unchanged_pairs", "expression_default_respelled_pairs", "fstring_default_rules_checked",
+                     "nested_field_fstring_default_rules_checked", "identity_valued_default_rules_checked"]
 EXHAUSTIVE = {"quick": True, "thorough": True}
 ASSUMPTIONS = ["a call is 'broken' iff really calling the old definition succeeds and the new one raises TypeError at binding (inspect.Signature.bind is the cross-check; where it disagrees the real call wins)",
                "call shapes limited to 0..3 positional arguments and keyword subsets of {a,b,c,zz}",
@@ -119,6 +139,9 @@ ASSUMPTIONS = ["a call is 'broken' iff really calling the old definition succeed
                "loaded workload: dataclass shapes are restricted to the region C18 shows to be synthesised like CPython on the pinned "
                "tree (C18's known findings are not reused as explanations here: any discrepancy is a violation); the check-api mode "
                "observes the breakages through a pass-through wrapper installed on _griffe.cli.find_breaking_changes for the call",
+               "expression defaults: 'the default value changed' is demanded only when the two evaluated defaults print differently "
+               "(prelude names are symbolic values whose repr is the trace of the operations applied); the same value written as "
+               "another expression may or may not be reported; two spellings CPython parses to the same tree must not be reported",
                "public names of a module without __all__: every underscore-free name of its executed namespace that no explicit import "
                "statement bound (own definitions and what `from x import *` put there); submodules reachable through underscore-free "
                "names are public whether or not something imports them; a name is never defined in a block that does not run"]
@@ -519,12 +542,22 @@ def func_path(func) -> str:  # noqa: ANN001
     return norm_path(f"{func.__module__}.{func.__qualname__}")
 
 
-def describe_func(func) -> dict:  # noqa: ANN001
-    """Same shape as describe(), read from CPython's view of the function (self/cls included)."""
+def describe_func(func, files: dict[str, str] | None = None) -> dict:  # noqa: ANN001
+    """Same shape as describe(), read from CPython's view of the function (self/cls included).
+
+    The default is the *evaluated* one (value_key: its repr; the parsed expression when the repr is an identity).
+    """
     out = {}
+    nodes = None
     for i, p in enumerate(inspect.signature(func).parameters.values()):
         kind = INSPECT_KIND[p.kind]
-        dfl = None if p.default is inspect.Parameter.empty else repr(p.default)
+        dfl = None
+        if p.default is not inspect.Parameter.empty:
+            dfl = repr(p.default)
+            if _ADDRESS.search(dfl):
+                if nodes is None:
+                    nodes = default_nodes(func, files)
+                dfl = value_key(p.default, nodes.get(p.name))
         out[p.name] = (kind, i, dfl, dfl is None and kind not in (VP, VK))
     return out
 
@@ -705,11 +738,21 @@ def observe(case: dict, rec) -> list[Seen]:  # noqa: ANN001, C901, PLR0912, PLR0
         shutil.rmtree(root, ignore_errors=True)
 
 
-def _standalone_miss(fo, fn) -> bool:  # noqa: ANN001
+def _standalone_miss(fo, fn, do: dict, dn: dict) -> bool:  # noqa: ANN001
     """Is the same pair of signatures, as plain module-level functions, also left unreported?"""
     import griffe
 
-    so, sn = (f"def f{inspect.signature(f)}: ...\n" for f in (fo, fn))
+    def plain(func, desc: dict, keys: dict) -> str:  # noqa: ANN001  (an expression default is stood for by 0; by 1 when its value is another one)
+        sig = inspect.signature(func)
+        params = []
+        for p in sig.parameters.values():
+            if p.default is not p.empty and type(p.default) is not int:
+                p = p.replace(default=int(keys.setdefault(p.name, desc[p.name][2]) != desc[p.name][2]))  # noqa: PLW2901
+            params.append(p)
+        return f"def f{sig.replace(parameters=params)}: ...\n"
+
+    keys: dict = {}
+    so, sn = plain(fo, do, keys), plain(fn, dn, keys)
     return not list(griffe.find_breaking_changes(visit_source(so, "m"), visit_source(sn, "m")))
 
 
@@ -937,6 +980,242 @@ def gen_exported(rng: random.Random, sigs, breaking: list[list[int]]) -> dict:  
     return case
 
 
+# ------------------------------------------------------------------------------------------
+# Parameter defaults from the full expression grammar.  The statement speaks of "a default value"; the pair space above
+# spells it with two integer literals.  Here every literal default of a generated case is re-spelled by an arbitrary
+# expression (vf/gen/exprs.py, hostile domain: operators, calls with keywords / stars, displays, comprehensions, lambdas,
+# conditional expressions, walrus, f-strings with conversions / format specs / nested f-strings) or by a template in a
+# spelling ``ast.unparse`` never produces (PEP 701 reused quotes, backslash / line break inside a replacement field,
+# implicit concatenation, star tuples, starred subscripts, parenthesised walrus).  A prelude defines the free names of
+# the grammar as symbolic values whose ``repr`` is the trace of the operations applied to them, so that CPython really
+# evaluates the default when it executes the ``def``: the oracle stays CPython (real calls decide what binds,
+# ``inspect.signature`` gives the evaluated default; two defaults differ iff their evaluated values print differently, or -
+# when the value prints with a memory address: lambdas, generators - iff CPython parses the two texts to different trees).
+# Literal ``0`` of parameter x becomes expression E0(x) (in its generated text or in a second spelling that parses to the
+# same tree), literal ``1`` becomes E1(x): an independent draw or a point mutation of E0(x), always with another value.
+EXPR_PRELUDE = '''\
+class _VfV:
+    def __init__(self, t): self.t = t
+    def __repr__(self): return self.t
+    def __str__(self): return "s<" + self.t + ">"
+    def __format__(self, spec): return "f<" + self.t + ":" + spec + ">"
+    def __getattr__(self, n):
+        if n[:2] == "__": raise AttributeError(n)
+        return _VfV(self.t + "." + n)
+    def __call__(self, *p, **k): return _VfV(self.t + "(" + repr(p) + repr(k) + ")")
+    def __getitem__(self, i): return _VfV(self.t + "[" + repr(i) + "]")
+    def __iter__(self): return iter((_VfV(self.t + "<0>"), _VfV(self.t + "<1>")))
+    def keys(self): return ["k0", "k1"]
+    def __bool__(self): return len(self.t) % 2 == 0
+    def __hash__(self): return len(self.t)
+    def __contains__(self, o): return len(repr(o)) % 2 == 0
+for _vfo in "add sub mul matmul truediv floordiv mod pow lshift rshift and or xor lt le gt ge eq ne".split():
+    setattr(_VfV, "__" + _vfo + "__", lambda s, o, _n=_vfo: _VfV("(" + repr(s) + " " + _n + " " + repr(o) + ")"))
+    setattr(_VfV, "__r" + _vfo + "__", lambda s, o, _n=_vfo: _VfV("(" + repr(o) + " " + _n + "~ " + repr(s) + ")"))
+for _vfo in ("neg", "pos", "invert"):
+    setattr(_VfV, "__" + _vfo + "__", lambda s, _n=_vfo: _VfV(_n + "(" + repr(s) + ")"))
+a, b, c, d, x, y, T, U, m, n = (_VfV(_vfo) for _vfo in "abcdxyTUmn")
+'''
+_ADDRESS = re.compile(r" at 0x[0-9a-fA-F]+")
+_DEF_DEFAULT = re.compile(r"\b(a|b|c|zz)=([01])(?=[,)])")
+# {H}: any expression (parenthesised unless an atom); the outer quotes of the f-string templates are reused inside
+EXPR_TEMPLATES = [
+    'f"{f"{H}" * 3}"', "f'{f'{H}' + f'{H}'}'", "f\"{f'{H}' * 3}\"", 'f"{f"{f"{H}"}"}"', 'f"x{f"y{H!r}"!s:>9}"', 'f"{H!r:>{H}}"',
+    'f"{H:{H}.{H}}"', 'f"{H = }"', 'f"{"\\n".join(H)}"', 'f"{H\n}"', 'f"{H}" "lit" f"{H}"', 'f"""{f"{H}" f\'{H}\'}"""',
+    "(*H, H)", "(*H, *H)", "H[*H]", "H[*H, H]", "(p := H)", "[p := H, p]", "lambda: H", "lambda p, /, q=H, *r, k=H, **w: H",
+    "H if H else H", "[H for p in H if H]", "{H: H for p, q in H}", "{H for p in H for q in H}", "list(H for p in H)",
+    "H(H, key=H, *H, **H)", "H(*H, sep=H)(end=H)", "not H", "-H ** -H", "H < H <= H", "H and H or H", "{**H, H: H}",
+]
+_ATOMS = (ast.Name, ast.Call, ast.Attribute, ast.Subscript, ast.List, ast.ListComp)  # never starting with a brace
+
+
+def value_key(value, node: ast.expr | None) -> str:  # noqa: ANN001
+    """What decides whether two evaluated defaults are 'the same default value'."""
+    text = repr(value)
+    if _ADDRESS.search(text):  # identity-printed objects: the expression CPython parsed stands for the value
+        return "ast:" + ast.dump(node) if node is not None else _ADDRESS.sub("", text)
+    return "val:" + text
+
+
+def nested_field_fstring(node: ast.AST) -> bool:
+    """A replacement field that contains, at any depth, an f-string that has a replacement field itself."""
+    return any(isinstance(f, ast.FormattedValue) and any(isinstance(j, ast.JoinedStr) and any(isinstance(v, ast.FormattedValue)
+               for v in j.values) for j in ast.walk(f.value)) for f in ast.walk(node))
+
+
+class ExprDefaults:
+    """Draws default expressions CPython accepts and evaluates under EXPR_PRELUDE: (text, other spelling, value key)."""
+
+    def __init__(self, rng: random.Random) -> None:
+        from vf.gen.exprs import ExprGen
+
+        self.rng = rng
+        self.gen = ExprGen(rng, clean=False)
+
+    def _hole(self) -> str:
+        tree = self.gen.expr(self.rng.choice([0, 1, 1, 2]))
+        text = ast.unparse(tree)
+        return text if isinstance(tree, _ATOMS) and not text.startswith("{") else f"({text})"
+
+    def _raw(self) -> str:
+        if self.rng.random() < 0.4:
+            return re.sub("H", lambda _m: self._hole(), self.rng.choice(EXPR_TEMPLATES))
+        return ast.unparse(self.gen.expr(self.rng.choice([1, 2, 2, 3])))
+
+    def _mutant(self, text: str) -> str:
+        """The same expression with one point changed: a sub-expression replaced, an operator, a constant, a conversion,
+        a format spec, a keyword name, a star added / removed, a lambda parameter turned keyword-only."""
+        tree = ast.parse(text, mode="eval").body
+        nodes = list(ast.walk(tree))
+        self.rng.shuffle(nodes)
+        for node in nodes:
+            r = self.rng.random()
+            if isinstance(node, ast.FormattedValue) and r < 0.8:
+                if self.rng.random() < 0.6:
+                    node.conversion = self.rng.choice([c for c in (-1, 114, 115, 97) if c != node.conversion])
+                else:
+                    node.format_spec = None if node.format_spec else ast.JoinedStr([ast.Constant(self.rng.choice([">4", "x", "^7"]))])
+            elif isinstance(node, ast.BinOp) and r < 0.5:
+                node.op = self.rng.choice([ast.Add, ast.Sub, ast.Mult, ast.BitOr, ast.FloorDiv, ast.MatMult])()
+            elif isinstance(node, ast.BoolOp) and r < 0.5:
+                node.op = ast.Or() if isinstance(node.op, ast.And) else ast.And()
+            elif isinstance(node, ast.Compare) and r < 0.5:
+                node.ops[-1] = self.rng.choice([ast.Lt, ast.GtE, ast.NotEq, ast.Is, ast.NotIn])()
+            elif isinstance(node, ast.UnaryOp) and r < 0.5:
+                node.op = self.rng.choice([ast.USub, ast.Invert, ast.Not, ast.UAdd])()
+            elif isinstance(node, ast.Constant) and r < 0.5 and not isinstance(node.value, (bytes, type(...))):
+                v = node.value
+                node.value = v + 1 if type(v) is int else v + "!" if isinstance(v, str) else 2
+            elif isinstance(node, ast.keyword) and node.arg and r < 0.6:
+                node.arg = self.rng.choice([k for k in ("key", "sep", "end", "flag") if k != node.arg])
+            elif isinstance(node, ast.Call) and node.args and r < 0.4:
+                k = self.rng.randrange(len(node.args))
+                node.args[k] = node.args[k].value if isinstance(node.args[k], ast.Starred) else ast.Starred(node.args[k], ast.Load())
+            elif isinstance(node, ast.Lambda) and node.args.args and r < 0.5:
+                node.args.kwonlyargs.insert(0, node.args.args.pop())
+                node.args.kw_defaults.insert(0, node.args.defaults.pop() if len(node.args.defaults) > len(node.args.args) else None)
+            elif isinstance(node, ast.Attribute) and r < 0.4:
+                node.attr = self.rng.choice([x for x in ("a", "b", "real", "p") if x != node.attr])
+            elif isinstance(node, (ast.List, ast.Tuple, ast.Set)) and isinstance(getattr(node, "ctx", ast.Load()), ast.Load) and r < 0.4:
+                node.elts.append(self.gen.leaf())
+            elif isinstance(node, ast.Name) and isinstance(node.ctx, ast.Load) and r < 0.3:
+                node.id = self.rng.choice([x for x in "abcdxy" if x != node.id])
+            else:
+                continue
+            return ast.unparse(ast.fix_missing_locations(tree))
+        return self._raw()
+
+    def check(self, text: str) -> tuple[str, str, str] | None:
+        """Really evaluate ``text`` as a default at module level and in a class body; None when CPython refuses."""
+        try:
+            tree = ast.parse(text, mode="eval").body
+            spelled = ast.unparse(tree)
+            other = spelled if spelled != text else f"({text})"
+            if ast.dump(ast.parse(other, mode="eval").body) != ast.dump(tree):
+                other = text
+            ns: dict = {}
+            src = EXPR_PRELUDE + f"def _vf_t(v={text}): ...\nclass _VfC:\n    def f(self, v={other}): ...\n"
+            exec(compile(src, "<default>", "exec"), ns)  # noqa: S102
+            value = inspect.signature(ns["_vf_t"]).parameters["v"].default
+            key = value_key(value, tree)
+            key2 = value_key(inspect.signature(ns["_VfC"].f).parameters["v"].default, tree)
+        except RecursionError:
+            return None
+        except Exception:  # noqa: BLE001  (SyntaxError: yield / await outside a function, walrus in a comprehension of a class ...)
+            return None
+        if key != key2 or len(text) > 400:
+            return None
+        # a walrus binds a module / class attribute: it must not create a public callable of its own
+        if any(inspect.isfunction(v) or isinstance(v, type) for k, v in ns.items() if k in "pqrskwvz" and len(k) == 1):
+            return None
+        return text, other, key
+
+    def draw(self) -> tuple[str, str, str]:
+        for _ in range(200):
+            got = self.check(self._raw())
+            if got:
+                return got
+        raise AssertionError("no evaluable default expression in 200 draws")
+
+    def partner(self, first: tuple[str, str, str]) -> tuple[str, str, str]:
+        """Another default with another value: a point mutation of ``first`` or an independent draw."""
+        for _ in range(200):
+            got = self.check(self._mutant(first[0]) if self.rng.random() < 0.5 else self._raw())
+            if got and got[2] != first[2]:
+                return got
+        raise AssertionError("no second default value in 200 draws")
+
+
+def with_expr_defaults(rng: random.Random, case: dict, exprs: ExprDefaults, rec) -> dict:  # noqa: ANN001
+    """Re-spell the literal defaults of every ``def`` of ``case`` by evaluable expressions (both versions consistently)."""
+    names = sorted({m.group(1) for ver in ("old", "new") for src in case[ver].values() for line in src.splitlines()
+                    if line.lstrip().startswith("def ") for m in _DEF_DEFAULT.finditer(line)})
+    if not names:
+        return case
+    for _attempt in range(6):
+        table = {}
+        for name in names:
+            zero = exprs.draw() if rng.random() < 0.85 else ("0", "(0)", "val:0")
+            table[name] = {"0": zero, "1": exprs.partner(zero)}
+
+        def respell(line: str) -> str:
+            if not line.lstrip().startswith("def "):
+                return line
+            return _DEF_DEFAULT.sub(lambda m: f"{m.group(1)}={table[m.group(1)][m.group(2)][int(rng.random() < 0.3)]}", line)  # noqa: B023
+
+        out = dict(case)
+        for ver in ("old", "new"):
+            out[ver] = {}
+            for name, src in case[ver].items():
+                new_src = "\n".join(respell(line) for line in src.split("\n"))
+                out[ver][name] = EXPR_PRELUDE + new_src if new_src != src else src
+        try:
+            for ver in ("old", "new"):
+                exec_version(out[ver])
+        except Exception:  # noqa: BLE001  (e.g. an iteration-order dependent unpacking inside a nested class body)
+            continue
+        rec.count("cases_with_expression_defaults")
+        return out
+    rec.count("cases_left_with_literal_defaults")
+    return case
+
+
+def _def_node(func, files: dict[str, str] | None) -> ast.FunctionDef | None:  # noqa: ANN001
+    """The ``def`` statement CPython compiled ``func`` from (None for synthesised functions)."""
+    source = files.get(func.__module__) if files else None
+    filename = func.__code__.co_filename
+    if source is None or (filename != f"<{func.__module__}>" and not filename.endswith(".py")):
+        return None
+    for node in ast.walk(_parsed(source)):
+        if isinstance(node, (ast.FunctionDef, ast.AsyncFunctionDef)) and node.name == func.__name__ and \
+                func.__code__.co_firstlineno in (node.lineno, *(d.lineno for d in node.decorator_list)):
+            return node
+    return None
+
+
+_PARSED: dict[str, ast.Module] = {}
+
+
+def _parsed(source: str) -> ast.Module:
+    if source not in _PARSED:
+        if len(_PARSED) > 64:
+            _PARSED.clear()
+        _PARSED[source] = ast.parse(source)
+    return _PARSED[source]
+
+
+def default_nodes(func, files: dict[str, str] | None) -> dict[str, ast.expr]:  # noqa: ANN001
+    """parameter name -> the default expression as CPython parsed it."""
+    node = _def_node(func, files)
+    if node is None:
+        return {}
+    a = node.args
+    positional = a.posonlyargs + a.args
+    out = dict(zip([p.arg for p in positional[len(positional) - len(a.defaults):]], a.defaults))
+    out.update({p.arg: dflt for p, dflt in zip(a.kwonlyargs, a.kw_defaults) if dflt is not None})
+    return out
+
+
 def with_load_mode(rng: random.Random, case: dict, *, hooks_needed: bool, expensive: dict) -> dict:
     """Decide how the two versions of ``case`` reach the finder (see LOAD_MODES); the decision is part of the literal case."""
     single = all(len({k.split(".")[0] for k in case[ver]}) == 1 for ver in ("old", "new"))
@@ -974,6 +1253,34 @@ def classify_placed(key: str, o: dict, n: dict | None, surf_o: dict, surf_n: dic
                    for k in group)  # ... or the path of the definition itself is one whose comparison is dropped (above)
     if len(group) > 1 and (len(new_targets) > 1 or replaced):
         return PLACED_FINDINGS[1]
+    return None
+
+
+DEFAULT_FINDINGS = ["C10-fstring-conversion-and-spec-not-compared", "C10-unbuildable-default-modelled-required"]
+
+
+def unbuildable(node: ast.expr | None) -> bool:
+    """Does the default contain an expression form the pinned builder has no entry for (``await``, legal inside a
+    generator expression at module level)?  The visitor then stores no default at all."""
+    return node is not None and any(isinstance(x, ast.Await) for x in ast.walk(node))
+
+
+def classify_default_miss(before: ast.expr | None, after: ast.expr | None) -> str | None:
+    """An unreported change of a default value: relation between the two default expressions CPython parsed."""
+    if before is None or after is None:
+        return None
+
+    def bare(node: ast.expr) -> str:  # the expression with `!r` / `!s` / `!a` and `:spec` taken off every replacement field
+        import copy
+
+        node = copy.deepcopy(node)
+        for field in ast.walk(node):
+            if isinstance(field, ast.FormattedValue):
+                field.conversion, field.format_spec = -1, None
+        return ast.dump(node)
+
+    if ast.dump(before) != ast.dump(after) and bare(before) == bare(after):
+        return DEFAULT_FINDINGS[0]  # the two defaults differ in nothing but conversions / format specs of f-string fields
     return None
 
 
@@ -1032,6 +1339,8 @@ def run_placed(rec, case: dict) -> None:  # noqa: ANN001, C901, PLR0912, PLR0915
                     rec.count("paths_conditional_and_wildcard_reexported_with_broken_call")
             if any(part.startswith("_") for part in o["func"].__module__.split(".")[1:]):
                 rec.count("paths_defined_in_private_submodule_with_broken_call")
+            if any(not isinstance(x, ast.Constant) for x in default_nodes(o["func"], case["old"]).values()):
+                rec.count("paths_with_expression_default_and_broken_call")
             if key.endswith(".__init__"):
                 import dataclasses
 
@@ -1058,12 +1367,20 @@ def run_placed(rec, case: dict) -> None:  # noqa: ANN001, C901, PLR0912, PLR0915
                 call = f"{key}(" + ", ".join([str(i) for i in range(npos)] + [f"{k}=9" for k in kws]) + ")"
                 fid, tried = None, []
                 if n:
-                    fid, tried = classify_miss_funcs(describe_func(o["func"]), describe_func(n["func"]), n["call"], broken)
-                    if fid is not None and not _standalone_miss(o["func"], n["func"]):
+                    do, dn = describe_func(o["func"], case["old"]), describe_func(n["func"], case["new"])
+                    fid, tried = classify_miss_funcs(do, dn, n["call"], broken)
+                    # two defaults the model cannot tell apart (listed mechanism) stand as one value in the plain pair
+                    before, after = default_nodes(o["func"], case["old"]), default_nodes(n["func"], case["new"])
+                    same = {k for k in before.keys() & after.keys() if classify_default_miss(before[k], after[k])}
+                    plain_dn = {k: ((*v[:2], do[k][2], v[3]) if k in same else v) for k, v in dn.items()}
+                    if fid is not None and not _standalone_miss(o["func"], n["func"], do, plain_dn):
                         fid = None  # the plain pair is reported: the placement, not the signature rule set, lost it
+                    if fid is None and any(unbuildable(node) and name in dn and dn[name][3]
+                                           for name, node in default_nodes(o["func"], case["old"]).items()):
+                        fid = DEFAULT_FINDINGS[1]  # a parameter that lost its default had one the builder cannot build
                     if fid is None:
                         fid = classify_placed(key, o, n, surf_o, surf_n)
-                    tried = [*tried, *PLACED_FINDINGS]
+                    tried = [*tried, DEFAULT_FINDINGS[1], *PLACED_FINDINGS]
                 problems.append((f"a call through public path {key} binds in the old version, not in the new one, and no "
                                  "breakage is reported on the function it resolves to",
                                  {"breakages": kinds, "witness_call": call, "old_resolves_to": func_path(o["func"]),
@@ -1071,24 +1388,50 @@ def run_placed(rec, case: dict) -> None:  # noqa: ANN001, C901, PLR0912, PLR0915
                 continue
         if not n:
             continue
-        do, dn = describe_func(o["func"]), describe_func(n["func"])
+        do, dn = describe_func(o["func"], case["old"]), describe_func(n["func"], case["new"])
         named = {b.param for b in here} - {None}
+        old_nodes, new_nodes = default_nodes(o["func"], case["old"]), default_nodes(n["func"], case["new"])
+        for name in old_nodes.keys() & new_nodes.keys():
+            if not isinstance(old_nodes[name], ast.Constant) and do[name][2] == dn[name][2] and \
+                    ast.dump(old_nodes[name]) == ast.dump(new_nodes[name]):
+                rec.count("expression_default_unchanged_pairs")  # a breakage naming it for its default is refuted below
+                if ast.get_source_segment(case["old"][o["func"].__module__], old_nodes[name]) != \
+                        ast.get_source_segment(case["new"][n["func"].__module__], new_nodes[name]):
+                    rec.count("expression_default_respelled_pairs")
         for name, (kind, idx, dfl, req) in do.items():
             if name not in dn:
                 continue
             nkind, nidx, ndfl, nreq = dn[name]
-            what = None
+            what = rule = None
             if kind in (PO, PK) and nkind in (PO, PK) and idx != nidx:
-                what = f"positional parameter {name} moved {idx}->{nidx}"
+                what, rule = f"positional parameter {name} moved {idx}->{nidx}", "moved"
             elif kind not in (VP, VK) and nkind not in (VP, VK) and dfl is not None and ndfl is not None and dfl != ndfl:
-                what = f"default of {name} changed {dfl}->{ndfl}"
+                what, rule = f"default of {name} changed {dfl[:160]}->{ndfl[:160]}", "default_changed"
             elif not req and nreq:
-                what = f"parameter {name} became required"
+                what, rule = f"parameter {name} became required", "became_required"
             if what:
                 rec.count("placed_param_rules_checked")
+                node = old_nodes.get(name)
+                if node is not None and not (isinstance(node, ast.Constant) and type(node.value) is int) and rule != "moved":
+                    # the old default is an expression CPython evaluated, not one of the two literals of the pair space
+                    rec.count(f"expression_default_{rule}_checked")
+                    rec.add_to_set("expression_default_node_kinds", type(node).__name__)
+                    for sub in ast.walk(node):
+                        rec.add_to_set("expression_default_inner_node_kinds", type(sub).__name__)
+                    if any(isinstance(x, ast.JoinedStr) for x in ast.walk(node)):
+                        rec.count("fstring_default_rules_checked")
+                    if nested_field_fstring(node):
+                        rec.count("nested_field_fstring_default_rules_checked")
+                    if any(isinstance(x, (ast.Lambda, ast.GeneratorExp)) for x in ast.walk(node)):
+                        rec.count("identity_valued_default_rules_checked")  # judged by the parsed expression
                 if name not in named:
+                    fid = classify_default_miss(node, new_nodes.get(name)) if rule == "default_changed" else None
+                    if fid is None and rule != "moved" and (unbuildable(node) or (rule == "default_changed" and unbuildable(new_nodes.get(name)))):
+                        fid = DEFAULT_FINDINGS[1]  # optional for CPython, required in the model: neither rule can fire
+                    if fid is None:
+                        fid = classify_placed(key, o, n, surf_o, surf_n)
                     problems.append((f"{what} behind public path {key} but no breakage names it", kinds, "named",
-                                     classify_placed(key, o, n, surf_o, surf_n), PLACED_FINDINGS))
+                                     fid, [*PLACED_FINDINGS, *DEFAULT_FINDINGS]))
     # every reported parameter breakage must name a parameter that changed behind some public path reaching that function
     for b, p in located:
         name = b.param
@@ -1098,8 +1441,16 @@ def run_placed(rec, case: dict) -> None:  # noqa: ANN001, C901, PLR0912, PLR0915
         justified = False
         for key, n in surf_n.items():
             o = surf_o.get(key)
-            if o and p in (f"{MAIN}.{key}", n["own_path"], func_path(n["func"])) and \
-                    describe_func(o["func"]).get(name) != describe_func(n["func"]).get(name):
+            if not (o and p in (f"{MAIN}.{key}", n["own_path"], func_path(n["func"]))):
+                continue
+            if describe_func(o["func"], case["old"]).get(name) != describe_func(n["func"], case["new"]).get(name):
+                justified = True
+                break
+            # the same value spelled by another expression (`1 + 1` -> `2`): whether that is "a changed default" is left open;
+            # spellings CPython parses to the same tree are the same default
+            before, after = default_nodes(o["func"], case["old"]).get(name), default_nodes(n["func"], case["new"]).get(name)
+            if before is not None and after is not None and ast.dump(before) != ast.dump(after):
+                rec.count("reported_default_change_with_equal_value_other_expression")
                 justified = True
                 break
         if not justified:
@@ -1121,10 +1472,12 @@ def shards(tier: str, seed: int) -> list[dict]:
         out += [{"kind": "pairs", "names": ["a", "b", "c"], "part": p, "parts": 32, "sample": 60} for p in range(32)]
         out += [{"kind": "placed", "names": ["a", "b"], "cases": 12000} for _ in range(16)]
         out += [{"kind": "loaded", "names": ["a", "b"], "cases": 6000, "check_api": 200, "check_cli": 30} for _ in range(16)]
+        out += [{"kind": "exprs", "names": ["a", "b"], "cases": 5000, "check_api": 60, "check_cli": 10} for _ in range(16)]
     else:
         out += [{"kind": "pairs", "names": ["a", "b", "c"], "part": p, "parts": 8, "sample": 3} for p in range(8)]
         out += [{"kind": "placed", "names": ["a", "b"], "cases": 1200} for _ in range(8)]
         out += [{"kind": "loaded", "names": ["a", "b"], "cases": 450, "check_api": 14, "check_cli": 3} for _ in range(8)]
+        out += [{"kind": "exprs", "names": ["a", "b"], "cases": 350, "check_api": 4, "check_cli": 1} for _ in range(6)]
     return out
 
 
@@ -1208,6 +1561,18 @@ def run_shard(spec: dict, rec) -> None:  # noqa: ANN001
         breaking = [[j for j in range(len(sigs)) if masks[i] & ~masks[j]] for i in range(len(sigs))]
         for _ in range(spec["cases"]):
             run_placed(rec, gen_placed(rng, sigs, breaking))
+        return
+    if spec["kind"] == "exprs":
+        import warnings
+
+        warnings.simplefilter("ignore", SyntaxWarning)  # `1.5[a]`, `x is 1`: CPython compiles them, that is all that matters here
+        masks = [accepted_mask(render(s), rec) for s in sigs]
+        breaking = [[j for j in range(len(sigs)) if masks[i] & ~masks[j]] for i in range(len(sigs))]
+        expensive = {"check-api": spec["check_api"], "check-cli": spec["check_cli"]}
+        exprs = ExprDefaults(rng)
+        for _ in range(spec["cases"]):
+            case = with_expr_defaults(rng, gen_placed(rng, sigs, breaking), exprs, rec)
+            run_placed(rec, with_load_mode(rng, case, hooks_needed=False, expensive=expensive))
         return
     if spec["kind"] == "loaded":
         masks = [accepted_mask(render(s), rec) for s in sigs]
